@@ -105,7 +105,7 @@ func c07PingBody(c *core.Ctx) { pingBody(c, "C07.2") }
 
 // pingBody (C07.2 = C03.16 = C12.10): the heartbeat keeps running, deadline included, until the session is closed.
 func pingBody(c *core.Ctx, R string) {
-	c.Rule(R, "ping body: the schedulePing callback does sendPacket(PING) ≺ resetPingTimeout(), the latter on every path and under no condition; the resetPingTimeout callback reaches OnClose(\"ping timeout\") on the not-closed edge and has no other effect")
+	c.Rule(R, "ping body: the schedulePing callback does resetPingTimeout() ≺ sendPacket(PING), the former on every path and under no condition; the resetPingTimeout callback reaches OnClose(\"ping timeout\") on the not-closed edge and has no other effect")
 	if sp := c.Fn(R, "engine.(*socket).schedulePing"); sp != nil {
 		var cb *core.Unit
 		for _, cl := range sp.CallsTo(setTimeoutKey) {
@@ -124,7 +124,9 @@ func pingBody(c *core.Ctx, R string) {
 					reset = cl
 				}
 			}
-			ok = ping != nil && reset != nil && g.Dominates(ping.Loc, reset.Loc)
+			// the deadline is armed first (fix 693c3ae): a pong accepted while sendPacket → flush → listeners are still
+			// running must find the deadline of THIS ping and clear it
+			ok = ping != nil && reset != nil && g.Dominates(reset.Loc, ping.Loc)
 			// … unconditionally: the deadline is armed on every path through the callback, whatever sendPacket did with the
 			// ping (a closing session drops it, yet the deadline is what ends a closing session whose peer is gone)
 			if ok {
@@ -141,7 +143,7 @@ func pingBody(c *core.Ctx, R string) {
 				c.Check(R, "engine.(*socket).schedulePing$callback/resetPingTimeout-unconditional", reset.Pos(), every && dep == "", keyf("armed on every path: %v; depends on: %q", every, dep))
 			}
 		}
-		c.Check(R, "engine.(*socket).schedulePing$callback/PING≺resetPingTimeout", sp.Pos(), ok, "each ping starts its deadline")
+		c.Check(R, "engine.(*socket).schedulePing$callback/resetPingTimeout≺PING", sp.Pos(), ok, "each ping's deadline is armed before the ping is handed to the transport")
 	}
 	if rp := c.Fn(R, "engine.(*socket).resetPingTimeout"); rp != nil {
 		var cb *core.Unit
@@ -190,7 +192,7 @@ func c07BranchEffects(c *core.Ctx) {
 		case (cl.Key == clearTOKey || cl.Key == clearIVKey):
 			effs = append(effs, eff{cl, "Clear(" + timerHolder(info, cl.Arg(0)) + ")"})
 		case cl.Key == "utils.(*Timer).Refresh":
-			effs = append(effs, eff{cl, "Refresh(" + timerHolder(info, cl.Recv) + ")"})
+			effs = append(effs, eff{cl, "Refresh(" + timerHolder(info, u.Resolve(cl.Recv)) + ")"})
 		case cl.Key == sockSendPkt:
 			t, _ := core.ConstString(info, cl.Arg(0))
 			effs = append(effs, eff{cl, "send(" + t + ")"})
